@@ -19,6 +19,7 @@ fn fill_case(ctx: &mut Ctx, max_edges: usize) {
         // one case in eight: a y-monotone polygon whose chains interleave in x (the shape the
         // monotone stage's heuristics are sensitive to), with its sweep sequence kept for attribution
         let mut mono_seq: Option<Vec<(lyon_path::math::Point, bool)>> = None;
+        let mut tol_override: Option<f32> = None;
         let poly = if rng.chance(1, 8) {
             let n_mid = rng.range(3, 14) as usize;
             let lattice = rng.chance(1, 4);
@@ -26,10 +27,17 @@ fn fill_case(ctx: &mut Ctx, max_edges: usize) {
             let p = Poly { subs: vec![(monotone_outline(&seq), true)], kind: "monotone" };
             mono_seq = Some(seq);
             p
+        } else if rng.chance(1, 10) {
+            let (p, tol) = gen_poly_extreme(rng);
+            tol_override = Some(tol);
+            p
         } else {
             gen_poly(rng, max_edges)
         };
-        let cfg = FillCfg::gen(rng);
+        let mut cfg = FillCfg::gen(rng);
+        if let Some(t) = tol_override {
+            cfg.tolerance = t;
+        }
         let mut args = Out::new();
         cfg.put(&mut args);
         let edges = poly.edges();
@@ -243,6 +251,7 @@ fn gen_sweep_stress(rng: &mut vh::Rng) -> Poly {
 
 fn sweep_case(ctx: &mut Ctx, max_edges: usize) {
     ctx.case("sweep:32", |rng| {
+        let mut tol_override: Option<f32> = None;
         let poly = if rng.chance(1, 3) {
             gen_sweep_stress(rng)
         } else if rng.chance(1, 8) {
@@ -250,10 +259,17 @@ fn sweep_case(ctx: &mut Ctx, max_edges: usize) {
             let lattice = rng.chance(1, 4);
             let seq = gen_monotone(rng, n_mid, None, lattice);
             Poly { subs: vec![(monotone_outline(&seq), true)], kind: "monotone" }
+        } else if rng.chance(1, 10) {
+            let (p, tol) = gen_poly_extreme(rng);
+            tol_override = Some(tol);
+            p
         } else {
             gen_poly(rng, max_edges)
         };
-        let cfg = FillCfg::gen(rng);
+        let mut cfg = FillCfg::gen(rng);
+        if let Some(t) = tol_override {
+            cfg.tolerance = t;
+        }
         // one case in eight (one in three of the stress inputs) runs with `handle_intersections = false`
         // (the error-recovery paths)
         let stress = matches!(poly.kind, "near-level" | "big-coords" | "overlap-many" | "near-coincident" | "comb" | "small-lattice");
